@@ -22,6 +22,9 @@ EXTENDS Integers, Sequences, FiniteSets, TLC
 VInt(n)    == [v |-> "int", n |-> n]
 VBool(b)   == [v |-> "bool", b |-> b]
 VBytes(bs) == [v |-> "bytes", bs |-> bs]
+\* strings are kept to ASCII here: the sequence of code points is the sequence of UTF-8 bytes
+VStr(cs)   == [v |-> "str", cs |-> cs]
+IsAscii(bs) == \A i \in 1..Len(bs) : bs[i] < 128
 VVoid      == [v |-> "void"]
 VList(xs)  == [v |-> "list", xs |-> xs]
 VTuple(xs) == [v |-> "tuple", xs |-> xs]
@@ -79,6 +82,7 @@ ToDataSeq(types, tys, vs) == [i \in 1..Len(vs) |-> ToData(types, tys[i], vs[i])]
 ToData(types, ty, val) ==
     CASE ty.t = "Int"       -> DI(val.n)
       [] ty.t = "ByteArray" -> DB(val.bs)
+      [] ty.t = "String"    -> DB(val.cs)
       [] ty.t = "Bool"      -> DC(IF val.b THEN 1 ELSE 0, <<>>)
       [] ty.t = "Void"      -> DC(0, <<>>)
       [] ty.t = "Data"      -> val.d
@@ -105,6 +109,7 @@ FromDataSeq(types, tys, ds, acc) ==       \* positional; Len(tys) = Len(ds) is c
 FromData(types, ty, d) ==
     CASE ty.t = "Int"       -> IF d.d = "I" THEN YesV(VInt(d.v)) ELSE NoV
       [] ty.t = "ByteArray" -> IF d.d = "B" THEN YesV(VBytes(d.v)) ELSE NoV
+      [] ty.t = "String"    -> IF d.d = "B" /\ IsAscii(d.v) THEN YesV(VStr(d.v)) ELSE NoV      \* (non-ASCII bytes: not generated)
       [] ty.t = "Bool"      -> IF d.d = "C" /\ d.fs = <<>> /\ d.tag \in {0, 1} THEN YesV(VBool(d.tag = 1)) ELSE NoV
       [] ty.t = "Void"      -> IF d.d = "C" /\ d.fs = <<>> /\ d.tag = 0 THEN YesV(VVoid) ELSE NoV
       [] ty.t = "Data"      -> YesV(VData(d))
@@ -149,6 +154,7 @@ VEq(a, b) ==
     CASE a.v = "int"   -> a.n = b.n
       [] a.v = "bool"  -> a.b = b.b
       [] a.v = "bytes" -> a.bs = b.bs
+      [] a.v = "str"   -> a.cs = b.cs
       [] a.v = "void"  -> TRUE
       [] a.v \in {"list", "tuple"} -> VSeqEq(a.xs, b.xs)
       [] a.v = "pair"  -> VEq(a.a, b.a) /\ VEq(a.b, b.b)
@@ -229,6 +235,21 @@ BytesLess(a, b) ==          \* lexicographic, a proper prefix is smaller
     ELSE IF a = <<>> THEN TRUE
     ELSE IF a[1] # b[1] THEN a[1] < b[1]
     ELSE BytesLess(Tail(a), Tail(b))
+\* bitwise and / or / xor of two bytes, and of two byte strings: with padding the result has the length of the longer argument (the missing
+\* bytes of the shorter count as 0xFF for `and`, 0x00 for `or` / `xor`), without it the length of the shorter
+RECURSIVE BitOp(_, _, _, _)
+BitOp(f, a, b, w) ==
+    IF w = 0 THEN 0
+    ELSE LET x == a % 2 y == b % 2
+             z == CASE f = "and_bytearray" -> IF x = 1 /\ y = 1 THEN 1 ELSE 0
+                    [] f = "or_bytearray"  -> IF x = 1 \/ y = 1 THEN 1 ELSE 0
+                    [] OTHER               -> IF x # y THEN 1 ELSE 0
+         IN  z + 2 * BitOp(f, a \div 2, b \div 2, w - 1)
+BitwiseBytes(f, pad, a, b) ==
+    LET fill == IF f = "and_bytearray" THEN 255 ELSE 0
+        n == IF pad THEN (IF Len(a) > Len(b) THEN Len(a) ELSE Len(b)) ELSE (IF Len(a) < Len(b) THEN Len(a) ELSE Len(b))
+        at(x, i) == IF i <= Len(x) THEN x[i] ELSE fill
+    IN  [i \in 1..n |-> BitOp(f, at(a, i), at(b, i), 8)]
 Clamp(x, lo, hi) == IF x < lo THEN lo ELSE IF x > hi THEN hi ELSE x
 BuiltinCall(f, vs) ==
     CASE f = "append_bytearray"           -> Ok(VBytes(vs[1].bs \o vs[2].bs))
@@ -240,6 +261,10 @@ BuiltinCall(f, vs) ==
       [] f = "slice_bytearray"            ->      \* slice(start, length, bytes): clamped, never fails
             LET n == Len(vs[3].bs) st == Clamp(vs[1].n, 0, n) ln == Clamp(vs[2].n, 0, n - Clamp(vs[1].n, 0, n))
             IN  Ok(VBytes(SubSeq(vs[3].bs, st + 1, st + ln)))
+      [] f \in {"and_bytearray", "or_bytearray", "xor_bytearray"} -> Ok(VBytes(BitwiseBytes(f, vs[1].b, vs[2].bs, vs[3].bs)))
+      [] f = "append_string"              -> Ok(VStr(vs[1].cs \o vs[2].cs))
+      [] f = "encode_utf8"                -> Ok(VBytes(vs[1].cs))
+      [] f = "decode_utf8"                -> IF IsAscii(vs[1].bs) THEN Ok(VStr(vs[1].bs)) ELSE Unknown
       [] OTHER -> Unknown
 
 RECURSIVE Eval(_, _, _, _), EvalSeq(_, _, _, _), EvalWhen(_, _, _, _, _), Apply(_, _, _, _)
@@ -264,6 +289,7 @@ Eval(m, env, e, fuel) ==
     CASE e.k = "int"   -> Ok(VInt(e.n))
       [] e.k = "bool"  -> Ok(VBool(e.b))
       [] e.k = "bytes" -> Ok(VBytes(e.bs))
+      [] e.k = "str"   -> Ok(VStr(e.cs))
       [] e.k = "void"  -> Ok(VVoid)
       [] e.k = "var"   -> IF e.x \in DOMAIN env THEN Ok(env[e.x]) ELSE Unknown
       [] e.k = "neg"   -> LET r == Eval(m, env, e.e, fuel) IN IF r.r = "ok" THEN Ok(VInt(0 - r.v.n)) ELSE r
